@@ -194,9 +194,11 @@ Extra == IF ExtraFile = "" THEN <<>> ELSE ndJsonDeserialize(ExtraFile)
 Cases == SetToSeq((IF Env("CF_TIER", "quick") = "thorough" THEN Sweeps ELSE QuickSweeps) \cup ToSet(Extra))
 NCases == Len(Cases)
 
-Corpus == Eager([k \in 1..NCases |->
+CorpusF == [k \in 1..NCases |->
               LET s == Build(Cases[k])
-              IN [k |-> k, c |-> Cases[k], s |-> s, now |-> NowU, raw |-> EncodeRaw(s, NowU), norm |-> Encode(s, NowU)]])
+              IN [k |-> k, c |-> Cases[k], s |-> s, now |-> NowU, raw |-> EncodeRaw(s, NowU), norm |-> Encode(s, NowU)]]
+\* a table for the parts that visit every case; the damage part touches a few cases only
+Corpus == IF Part = "gen" THEN Eager(CorpusF) ELSE CorpusF
 
 DumpFile == Env("CF_DUMP", "")
 DumpOK == IF Part = "gen" /\ DumpFile # "" THEN ndJsonSerialize(DumpFile, Corpus) ELSE TRUE
